@@ -195,6 +195,8 @@ func build(kind string) *scen {
 	tx("pay(p1,c1,specB,700)", func(s *scen) chain.TxResult { return s.pay(1, 1, specB, 700) })
 	tx("pay(p2,c0,specA,200)", func(s *scen) chain.TxResult { return s.pay(2, 0, specA, 200) })
 	tx("delegate(d,p0,50000)", func(s *scen) chain.TxResult { return s.delegate(0, 50000) })
+	// a dust delegation next to a large one: uniform unbonding (slash, validator-side undelegation) gives it a zero share
+	tx("delegate(d,p1,1)", func(s *scen) chain.TxResult { return s.delegate(1, 1) })
 	tx("unbond(d,p0,20000)", func(s *scen) chain.TxResult {
 		return s.w.Tx(func() error {
 			msg := &dualstakingtypes.MsgUnbond{Creator: s.deleg.Addr.String(), Validator: sdk.ValAddress(s.val.Addr).String(), Provider: s.provs[0].Addr.String(), ChainID: specA, Amount: coin(s.w, 20000)}
@@ -507,13 +509,21 @@ func runCheck(property string) func(run *ev.Run) {
 			bfs.Report(run, n, cfg, st)
 			exh = exh && st.Exhaustive
 		}
+		if property == "C37" && ev.Tier() == "thorough" {
+			// block processing under staking-module histories (delegate / undelegate / redelegate / cancel-unbonding on
+			// two validators, slash, dualstaking txs): the C06 alphabet, only its chain-halt findings are kept here
+			cfg := bfs.Config{Scenario: "c06/deleg", MaxDepth: 6, Deadline: 7 * time.Minute}
+			st := bfs.Explore(cfg, filtered)
+			bfs.Report(run, "staking-deleg", cfg, st)
+			exh = exh && st.Exhaustive
+		}
 		for _, v := range filtered.Violations() {
 			if v.Property == property {
 				run.Violate(v)
 			}
 		}
 		run.Set("exhaustive", exh)
-		run.Set("bound", fmt.Sprintf("all histories up to depth %d over 24 ops (buy/advance-buy/auto-renew/12-month subscriptions, IPRPC funding 1-2 months, relay payments on two specs (also to a third provider that is staked only in the young fixture), delegate/unbond/claim, unstake, plan new version/delete, validator slash of half its stake with jailing, unjail, +1 block, next epoch, past memory, +1 day, +31 days) from a fresh fixture, an aged one (a month with payouts, delegation, IPRPC funds, an upgrade) a late one (subscriptions whose month expires within the last 24 h before a pools refill) and a young one (a provider staked ten minutes before a served subscription's month expires), horizon 100 days", depth))
+		run.Set("bound", fmt.Sprintf("all histories up to depth %d over 25 ops (buy/advance-buy/auto-renew/12-month subscriptions, IPRPC funding 1-2 months, relay payments on two specs (also to a third provider that is staked only in the young fixture), delegate (also a dust delegation of 1)/unbond/claim, unstake, plan new version/delete, validator slash of half its stake with jailing, unjail, +1 block, next epoch, past memory, +1 day, +31 days) from a fresh fixture, an aged one (a month with payouts, delegation, IPRPC funds, an upgrade) a late one (subscriptions whose month expires within the last 24 h before a pools refill) and a young one (a provider staked ten minutes before a served subscription's month expires), horizon 100 days", depth))
 		run.Assume("mock bank/account keeper of testutil/keeper (MintCoins/BurnCoins are visible in its supply); atomic txs emulated as in baseapp; begin/end blockers in app.go order; distribution/slashing/evidence begin-blockers of cosmos are not run (a slash is injected at their position)")
 	}
 }
